@@ -934,6 +934,8 @@ pub struct RunResult {
     pub weights: Vec<u32>,
     pub validate: (f32, f32),
     pub predictions: Vec<u32>,
+    /// predict() of the same inputs, one at a time (the sequential schedule of the batched prediction)
+    pub singles: Vec<u32>,
     pub events: Vec<String>,
 }
 
@@ -976,6 +978,7 @@ pub fn run_job_in(pool: &rayon::ThreadPool, spec: &RunSpec, user_validate_event:
                 weights: nets::param_bits(&net),
                 validate,
                 predictions: preds.iter().flat_map(|t| nets::tensor_bits(t)).collect(),
+                singles: many.iter().flat_map(|x| nets::tensor_bits(&net.predict(x))).collect(),
                 events,
             }
         })
@@ -1313,6 +1316,11 @@ pub fn record_threads(seed: u64, tier: &str, trace: &mut Vec<Value>, rep: &mut R
                         rep.mismatch("C05", "job_panicked", &name, json!({"panic": msg, "threads": threads}), &json!({"job": job}));
                     }
                     Ok(res) => {
+                        // "predictions in input order", with the sequential schedule as the reference: element i of the batched
+                        // prediction is predict(x_i), bit for bit, whatever the pool
+                        if res.predictions != res.singles {
+                            rep.mismatch("C05", "batched_prediction_differs_from_one_at_a_time", &name, json!({"job": name, "threads": threads}), &json!({"job": job}));
+                        }
                         completion_orders(&res.events, &mut orders);
                         push_hook_events(trace, res.events.clone(), false);
                         if let Some(base) = &baseline {
